@@ -223,21 +223,24 @@ Section Sim.
     destruct o2; try t3done. now apply IH.
   Qed.
 
-  Lemma extract_member_sim : forall fuel base bufsz h od r1 r2 t, RR r1 r2 ->
-    T3 (extract_member St1 rd1 sk1 legacy fuel base bufsz h od r1 t)
-       (extract_member St2 rd2 sk2 legacy fuel base bufsz h od r2 t).
+  Lemma extract_member_sim : forall reb fuel base bufsz h od r1 r2 t, RR r1 r2 ->
+    T3 (extract_member_g St1 rd1 sk1 legacy reb fuel base bufsz h od r1 t)
+       (extract_member_g St2 rd2 sk2 legacy reb fuel base bufsz h od r2 t).
   Proof.
-    intros fuel base bufsz h od r1 r2 t H. unfold extract_member.
-    destruct (t_isdir [] t && bytes_eqb (h_name h) base).
-    - destruct (isreg (h_type h)).
+    intros reb fuel base bufsz h od r1 r2 t H. unfold extract_member_g.
+    destruct (t_isdir (if reb then base else []) t && bytes_eqb (h_name h) base).
+    - destruct reb; [repeat split; apply H|]. destruct (isreg (h_type h)).
       + match goal with |- context [copyfileobj St1 rd1 legacy fuel ?a ?b r1 []] =>
           pose proof (copyfileobj_sim fuel a b r1 r2 [] H) as (H1 & H2 & H3);
           destruct (copyfileobj St1 rd1 legacy fuel a b r1 []) as [[o1 a1] s1];
           destruct (copyfileobj St2 rd2 legacy fuel a b r2 []) as [[o2 a2] s2] end.
         simpl in *. subst. destruct o2; t3done.
-      + repeat split; apply H.
+      + repeat match goal with
+               | |- context [if ?c then _ else _] => destruct c
+               | |- context [match ?x with _ => _ end] => destruct x
+               end; repeat split; apply H.
     - destruct (isreg (h_type h)).
-      + destruct (rel_under base (h_name h)) as [p|]; [|repeat split; apply H].
+      + destruct (relp reb base (h_name h)) as [p|]; [|repeat split; apply H].
         destruct (negb _ || t_isdir p t); [repeat split; apply H|].
         pose proof (fsr_sim fuel bufsz od (h_size h) 0 r1 r2 [] H) as (H1 & H2 & H3).
         destruct (fsr_loop St1 rd1 sk1 legacy fuel bufsz od (h_size h) 0 r1 []) as [[o1 a1] s1].
@@ -250,16 +253,16 @@ Section Sim.
                end; repeat split; apply H.
   Qed.
 
-  Lemma run_loop_sim : forall fuel base bufsz off r1 r2 t, RR r1 r2 ->
-    run_loop St1 rd1 sk1 legacy fuel base bufsz off r1 t = run_loop St2 rd2 sk2 legacy fuel base bufsz off r2 t.
+  Lemma run_loop_sim : forall fuel base bufsz off r1 r2 t reb, RR r1 r2 ->
+    run_loop St1 rd1 sk1 legacy fuel base bufsz off r1 t reb = run_loop St2 rd2 sk2 legacy fuel base bufsz off r2 t reb.
   Proof.
-    induction fuel as [|f IH]; intros base bufsz off r1 r2 t H; [reflexivity|].
+    induction fuel as [|f IH]; intros base bufsz off r1 r2 t reb H; [reflexivity|].
     cbn [run_loop]. pose proof (next_sim (S f) off r1 r2 H) as [H1 H2].
     destruct (next St1 rd1 sk1 legacy (S f) off r1) as [x1 s1], (next St2 rd2 sk2 legacy (S f) off r2) as [x2 s2].
     cbn [fst snd] in *. subst x2. destruct x1 as [| | |h od no|]; try reflexivity.
-    pose proof (extract_member_sim (S f) base bufsz h od s1 s2 t H2) as (E1 & E2 & E3).
-    destruct (extract_member St1 rd1 sk1 legacy (S f) base bufsz h od s1 t) as [[o1 t1] q1].
-    destruct (extract_member St2 rd2 sk2 legacy (S f) base bufsz h od s2 t) as [[o2 t2] q2].
+    pose proof (extract_member_sim reb (S f) base bufsz h od s1 s2 t H2) as (E1 & E2 & E3).
+    destruct (extract_member_g St1 rd1 sk1 legacy reb (S f) base bufsz h od s1 t) as [[o1 t1] q1].
+    destruct (extract_member_g St2 rd2 sk2 legacy reb (S f) base bufsz h od s2 t) as [[o2 t2] q2].
     cbn [fst snd] in *. subst. destruct o2; try reflexivity. now apply IH.
   Qed.
 
